@@ -667,6 +667,17 @@ class Gen:
         if depth <= 0:
             return self.atom() if r.random() < 0.6 else self.capture_node(0, in_acc)
         c = r.random()
+        if r.random() < 0.04:
+            # a tagged capture followed by a reference to that tag, also inside an accumulate and across a failed alternative
+            self.features.add("tag-then-ref")
+            t = r.choice(TAGS)
+            cap = r.choice([("capture", self.atom(consuming=True), t), ("constant", r.choice([b"K", 7]), t), ("accumulate", ("capture", self.atom(consuming=True), None), t)])
+            ref = r.choice([("backref", t, None), ("backmatch", t), ("seq", [("backmatch", t), ("backref", t, None)])])
+            mid = self.pat(depth - 2, in_acc) if depth > 1 and r.random() < 0.4 else None
+            body = ("seq", [x for x in (cap, mid, ref) if x is not None])
+            if not in_acc and r.random() < 0.5:
+                return ("accumulate", body, self.tag(0.2))
+            return body
         if c < 0.14:
             return self.atom()
         if c < 0.30:
